@@ -229,6 +229,11 @@ def summaries(prog, func, cls, assume: Optional[Callable] = None, inline: Option
     for s in ex.ret | ex.normal:
         mk(s, "return")
     for s, nm in ex.exc:
+        if nm is None:
+            # an exception that travelled through a `with` / `finally`: its type is the one of the last raise on the path
+            ev_ = (s[2] or ((), (), ()))[0]
+            last = [e for e in ev_ if e[0] == "raise"]
+            nm = last[-1][1] if last else None
         mk(s, f"raise:{nm}")
     return out, list(it.unrecognised)
 
